@@ -56,7 +56,7 @@ def finding_key(req, obs, detail):
                 return "src tree-differs[module] struct a { } ; struct a : a { } ;"
             if re.search(r"enum \w+ \{[^}]*= \( \S+ , ", key):
                 return "src rejected-by-parser enum a { a = ( a , a ) } ;"
-            if re.search(r"\w+ \w+ (?:\[ \S+ \] )?(?:: \w+ )?= \( \S+ , \S+ \) [,)]", key):
+            if re.search(r"\w+ (?:\[ \S+ \] )?(?:: \w+ )?= \( \S+ , \S+ \) [,)]", key) and "rejected-by-parser" in key:
                 return "src rejected-by-parser a a ( a a = ( a , a ) ) { }"
         # source stream: a declarator whose array size is a parenthesised comma expression (one class, whatever
         # statement the 1-minimal program wraps around it)
